@@ -33,9 +33,18 @@ pub const UNKNOWN_REQUESTS: &[&str] = &[
     "textDocument/semanticTokens/full/delta",
     "textDocument/semanticTokens",
     "shutdown/now",
+    // requests (they carry an id and want an answer) named like notifications the server knows
+    "textDocument/didOpen",
+    "textDocument/didChange",
+    "textDocument/didClose",
+    "initialized",
+    "exit",
+    "$/cancelRequest",
 ];
 pub const UNKNOWN_NOTIFICATIONS: &[&str] =
-    &["textDocument/didClose", "textDocument/didSave", "$/cancelRequest", "$/setTrace", "workspace/didChangeConfiguration", "workspace/didChangeWatchedFiles", "$/simplc/unknown"];
+    &["textDocument/didClose", "textDocument/didSave", "$/cancelRequest", "$/setTrace", "workspace/didChangeConfiguration", "workspace/didChangeWatchedFiles", "$/simplc/unknown",
+    // notifications (no id, no answer wanted) named like requests the server knows
+    "textDocument/semanticTokens/full", "shutdown", "textDocument/hover"];
 
 // ---------------------------------------------------------------------------------------------
 // Generators
@@ -146,6 +155,24 @@ fn gen_ws_files(rng: &mut Rng, texts: &[String]) -> Vec<(String, String)> {
     files
 }
 
+/// Entries of the workspace folder that look like source files and cannot be read.
+fn gen_ws_extras(rng: &mut Rng) -> Vec<crate::world::Extra> {
+    use crate::world::Extra;
+    let mut extras = vec![];
+    for _ in 0..rng.range(1, 2) {
+        let e = match rng.below(4) {
+            0 => Extra::DanglingSymlink(".#lib.st".into()),
+            1 => Extra::EmptyDir("old.st".into()),
+            2 => Extra::SymlinkLoop("loop.iec".into()),
+            _ => Extra::DanglingSymlink("gone.ST".into()),
+        };
+        if !extras.contains(&e) {
+            extras.push(e);
+        }
+    }
+    extras
+}
+
 fn gen_edit_event(rng: &mut Rng, texts: &[String], uris: &[&str], counter: &mut i32, allow_multi: bool) -> Event {
     let uri = rng.pick(uris).to_string();
     let version = version_for(rng, counter);
@@ -168,7 +195,7 @@ fn gen_edit_event(rng: &mut Rng, texts: &[String], uris: &[&str], counter: &mut 
 pub fn gen_c11(rng: &mut Rng, thorough: bool, run_index: u64) -> LspTrace {
     let max_len = if thorough { 4 } else { 3 };
     if let Some(events) = enumerated_history(run_index, max_len) {
-        return LspTrace { prop: "C11".into(), ws_files: vec![], use_ws_folder: false, events, hash_seeds: vec![rng.next(), rng.next()], dir_seed: rng.next(), mode: "enumerated".into(), init_shape: 0 };
+        return LspTrace { prop: "C11".into(), ws_files: vec![], use_ws_folder: false, events, hash_seeds: vec![rng.next(), rng.next()], dir_seed: rng.next(), mode: "enumerated".into(), init_shape: 0, ws_extras: vec![] };
     }
     let slots = rng.range(2, 4);
     let texts = text_pool(rng, slots);
@@ -197,7 +224,8 @@ pub fn gen_c11(rng: &mut Rng, thorough: bool, run_index: u64) -> LspTrace {
     }
     // the initialize request comes in several legal shapes that announce the same folder (or none)
     let init_shape = if use_ws_folder { *rng.pick(&[0u8, 0, 7, 8, 9]) } else { *rng.pick(&[0u8, 0, 0, 1, 8]) };
-    LspTrace { prop: "C11".into(), ws_files, use_ws_folder, events, hash_seeds: (0..4).map(|_| rng.next()).collect(), dir_seed: rng.next(), mode: "random".into(), init_shape }
+    let ws_extras = if use_ws_folder && rng.chance(1, 3) { gen_ws_extras(rng) } else { vec![] };
+    LspTrace { prop: "C11".into(), ws_files, use_ws_folder, events, hash_seeds: (0..4).map(|_| rng.next()).collect(), dir_seed: rng.next(), mode: "random".into(), init_shape, ws_extras }
 }
 
 pub fn gen_c12(rng: &mut Rng, _thorough: bool) -> LspTrace {
@@ -282,14 +310,23 @@ pub fn gen_c12(rng: &mut Rng, _thorough: bool) -> LspTrace {
     if init_shape == 5 {
         ws_files = vec![("a.st".to_string(), rng.pick(&texts).clone())];
     }
-    LspTrace { prop: "C12".into(), ws_files, use_ws_folder, events, hash_seeds: vec![rng.next()], dir_seed: rng.next(), mode: "random".into(), init_shape }
+    let ws_extras = if (use_ws_folder || matches!(init_shape, 2 | 3)) && rng.chance(1, 3) { gen_ws_extras(rng) } else { vec![] };
+    LspTrace { prop: "C12".into(), ws_files, use_ws_folder, events, hash_seeds: vec![rng.next()], dir_seed: rng.next(), mode: "random".into(), init_shape, ws_extras }
 }
 
 /// Adds layout trivia of the kinds the C15 quantifier names.
 fn with_trivia(rng: &mut Rng, text: &str) -> String {
     let mut out = String::new();
+    // a third of the decorated documents carry non-ASCII characters in their comments (one, two,
+    // three and four byte characters; one and two UTF-16 units), before tokens on the same line
+    let non_ascii = rng.chance(1, 3);
     for line in text.split_inclusive('\n') {
         match rng.below(12) {
+            0 | 2 if non_ascii => {
+                let c = *rng.pick(&["(* Größe ≤ 3 *) ", "(* é *)", "(* 😀 emoji 😀 *) ", "(* 日本語\n   zwei Zeilen ß *) ", "(*µ*)"]);
+                out.push_str(c);
+                out.push_str(line);
+            }
             0 => {
                 // comment before tokens on the same line
                 out.push_str("(* lead *) ");
@@ -362,7 +399,12 @@ pub fn gen_c15(rng: &mut Rng, _thorough: bool) -> LspTrace {
         events.push(e);
     }
     events.push(Event::SemTok { uri: rng.pick(&uris).to_string(), id_kind: 0 });
-    LspTrace { prop: "C15".into(), ws_files: vec![], use_ws_folder: false, events, hash_seeds: (0..3).map(|_| rng.next()).collect(), dir_seed: rng.next(), mode: "random".into(), init_shape: *rng.pick(&[0u8, 0, 0, 1, 8]) }
+    // a workspace folder whose files on disk differ from what the editor holds (unsaved buffers):
+    // the answer is about the document as synchronised, the disk only matters for never-opened files
+    let use_ws_folder = rng.chance(1, 4);
+    let ws_files = if use_ws_folder { gen_ws_files(rng, &texts) } else { vec![] };
+    let init_shape = if use_ws_folder { *rng.pick(&[0u8, 0, 7, 8, 9]) } else { *rng.pick(&[0u8, 0, 0, 1, 8]) };
+    LspTrace { prop: "C15".into(), ws_files, use_ws_folder, events, hash_seeds: (0..3).map(|_| rng.next()).collect(), dir_seed: rng.next(), mode: "random".into(), init_shape, ws_extras: vec![] }
 }
 
 pub fn generate(prop: &str, rng: &mut Rng, thorough: bool, run_index: u64) -> LspTrace {
@@ -383,6 +425,22 @@ fn lay_out_ws(t: &LspTrace) {
     std::fs::create_dir_all(r.join("ws")).expect("create ws");
     for (name, text) in &t.ws_files {
         let _ = std::fs::write(r.join("ws").join(name), text);
+    }
+    let ws = r.join("ws");
+    for e in &t.ws_extras {
+        use crate::world::Extra;
+        match e {
+            Extra::DanglingSymlink(n) => {
+                let _ = std::os::unix::fs::symlink("/nonexistent/simplc", ws.join(n));
+            }
+            Extra::EmptyDir(n) => {
+                let _ = std::fs::create_dir_all(ws.join(n));
+            }
+            Extra::SymlinkLoop(n) => {
+                let _ = std::os::unix::fs::symlink(ws.join(n), ws.join(n));
+            }
+            _ => {}
+        }
     }
 }
 
@@ -540,10 +598,22 @@ fn edit_of(step: &Step) -> Option<(String, i64)> {
     Some((td["uri"].as_str()?.to_string(), td["version"].as_i64()?))
 }
 
+/// The first `n` bytes of `s`, cut back to a character boundary.
+fn head(s: &str, n: usize) -> &str {
+    if s.len() <= n {
+        return s;
+    }
+    let mut end = n;
+    while !s.is_char_boundary(end) {
+        end -= 1;
+    }
+    &s[..end]
+}
+
 fn short(v: &Value) -> String {
     let s = v.to_string();
     if s.len() > 300 {
-        format!("{}…", &s[..300])
+        format!("{}…", head(&s, 300))
     } else {
         s
     }
@@ -958,7 +1028,7 @@ fn legend_of(h: &History) -> (Vec<String>, usize) {
 
 /// (line, character) of every byte offset that starts a character, LSP style (ASCII documents:
 /// UTF-16 units = chars = bytes).
-fn line_col_table(text: &str) -> BTreeMap<(u32, u32), usize> {
+fn line_col_table(text: &str, unit: Unit) -> BTreeMap<(u32, u32), usize> {
     let mut m = BTreeMap::new();
     let mut line = 0u32;
     let mut col = 0u32;
@@ -968,11 +1038,48 @@ fn line_col_table(text: &str) -> BTreeMap<(u32, u32), usize> {
             line += 1;
             col = 0;
         } else {
-            col += c.len_utf16() as u32;
+            col += unit.width(c);
         }
     }
     m.insert((line, col), text.len());
     m
+}
+
+/// The unit in which a server counts characters within a line. The protocol's default is UTF-16
+/// code units; the property does not name one, so a response is accepted if it is exact in ONE
+/// unit used throughout (positions and lengths alike). For ASCII documents the three coincide.
+#[derive(Clone, Copy, Debug, PartialEq)]
+enum Unit {
+    Utf16,
+    Bytes,
+    Chars,
+}
+
+impl Unit {
+    fn width(self, c: char) -> u32 {
+        match self {
+            Unit::Utf16 => c.len_utf16() as u32,
+            Unit::Bytes => c.len_utf8() as u32,
+            Unit::Chars => 1,
+        }
+    }
+}
+
+fn check_tokens(text: &str, data: &[u64], legend: &[String], n_modifiers: usize) -> Result<usize, (String, String)> {
+    if text.is_ascii() {
+        return check_tokens_in_unit(text, data, legend, n_modifiers, Unit::Utf16);
+    }
+    let first = check_tokens_in_unit(text, data, legend, n_modifiers, Unit::Utf16);
+    if first.is_ok() {
+        return first;
+    }
+    for unit in [Unit::Bytes, Unit::Chars] {
+        let r = check_tokens_in_unit(text, data, legend, n_modifiers, unit);
+        if r.is_ok() {
+            return r;
+        }
+    }
+    first.map_err(|(clause, detail)| (clause, format!("{detail} (counting in UTF-16 units; counting in bytes or in characters does not fit either)")))
 }
 
 /// Words that are keywords beyond doubt in IEC 61131-3 (delimiters of declarations and
@@ -984,13 +1091,13 @@ const DEFINITE_KEYWORDS: &[&str] = &[
     "RESOURCE", "END_RESOURCE", "TASK", "WITH",
 ];
 
-fn check_tokens(text: &str, data: &[u64], legend: &[String], n_modifiers: usize) -> Result<usize, (String, String)> {
+fn check_tokens_in_unit(text: &str, data: &[u64], legend: &[String], n_modifiers: usize, unit: Unit) -> Result<usize, (String, String)> {
     let (tokens, lex) = tokenize_program(text, &FileId::default(), &ParseOptions::default());
     debug_assert!(lex.is_empty());
     if data.len() % 5 != 0 {
         return Err(("length-not-multiple-of-5".into(), format!("data has {} entries", data.len())));
     }
-    let table = line_col_table(text);
+    let table = line_col_table(text, unit);
     // reference: start offset -> (length in chars, text, type)
     let mut reference: BTreeMap<usize, (&ironplc_parser::token::Token, bool)> = BTreeMap::new();
     for tok in &tokens {
@@ -1035,7 +1142,7 @@ fn check_tokens(text: &str, data: &[u64], legend: &[String], n_modifiers: usize)
             return Err(("lexeme-reported-twice".into(), format!("token {k} hits lexeme {:?} again", tok.text)));
         }
         *hit = true;
-        let char_len = tok.text.chars().map(|c| c.len_utf16() as u32).sum::<u32>();
+        let char_len = tok.text.chars().map(|c| unit.width(c)).sum::<u32>();
         // the LSP length of a multi-line token is not well defined for line-based clients; only
         // single-line lexemes are compared
         if !tok.text.contains('\n') && len != char_len {
@@ -1179,7 +1286,22 @@ fn oracle_c15(t: &LspTrace, h: &History, stats: &mut Stats) -> Vec<Violation> {
                 continue;
             }
             let resp = responses[0];
-            let text = uri_path(sym).and_then(|p| model.by_path().get(&p).cloned());
+            let mut text = uri_path(sym).and_then(|p| model.by_path().get(&p).cloned());
+            if text.is_none() && t.use_ws_folder {
+                // never opened, but a source file of the workspace folder: the server knows it from disk
+                if let Some(p) = uri_path(sym) {
+                    let ws_prefix = format!("{}/ws/", root().display());
+                    if let Some(name) = p.strip_prefix(&ws_prefix) {
+                        let lower = name.to_lowercase();
+                        if lower.ends_with(".st") || lower.ends_with(".iec") {
+                            text = t.ws_files.iter().find(|(n, _)| n == name).map(|(_, x)| x.clone());
+                            if text.is_some() {
+                                stats.count("c15.never_opened_workspace_file_requests");
+                            }
+                        }
+                    }
+                }
+            }
             let Some(text) = text else {
                 // unknown or non-file document: null or an error are both acceptable
                 let acceptable = resp.get("error").map(|e| !e.is_null()).unwrap_or(false)
@@ -1200,7 +1322,7 @@ fn oracle_c15(t: &LspTrace, h: &History, stats: &mut Stats) -> Vec<Violation> {
                 continue;
             }
             if !text.is_ascii() {
-                continue;
+                stats.count("c15.non_ascii_documents");
             }
             let (_, lex) = tokenize_program(&text, &FileId::default(), &ParseOptions::default());
             if !lex.is_empty() {
@@ -1223,7 +1345,7 @@ fn oracle_c15(t: &LspTrace, h: &History, stats: &mut Stats) -> Vec<Violation> {
                     }
                 }
                 Err((clause, detail)) => {
-                    out.push(viol("C15", format!("C15/{clause}"), format!("{sym}: {detail}; document = {:?}", if text.len() > 200 { &text[..200] } else { &text })));
+                    out.push(viol("C15", format!("C15/{clause}"), format!("{sym}: {detail}; document = {:?}", head(&text, 200))));
                     continue;
                 }
             }
@@ -1271,6 +1393,9 @@ pub fn execute(t: &LspTrace, stats: &mut Stats) -> RunReport {
         stats.count("event.workspaceFolder");
     }
     stats.count(&format!("event.initialize.{}", crate::lsp::init_shape_name(t.init_shape)));
+    if !t.ws_extras.is_empty() {
+        stats.count("event.workspaceFolder.unreadableEntries");
+    }
     // reach: abstract server state = sorted (slot, text class) after the history x last event kind
     let mut model = Model::default();
     for ev in &t.events {
@@ -1348,6 +1473,11 @@ pub fn shrink(t: &LspTrace) -> Vec<LspTrace> {
     for i in 0..t.ws_files.len() {
         let mut c = t.clone();
         c.ws_files.remove(i);
+        out.push(c);
+    }
+    for i in 0..t.ws_extras.len() {
+        let mut c = t.clone();
+        c.ws_extras.remove(i);
         out.push(c);
     }
     // 3. simpler events
